@@ -620,8 +620,8 @@ func (s *sim) reuseDialOpts() {
 //go:norace
 func (s *sim) buildOpts(o OptsSpec) *grpcgcp.GCPMultiEndpointOptions {
 	fresh := s.buildOptsFresh(o)
-	if !s.plan.Alias || s.plan.Concurrent {
-		return fresh
+	if !s.plan.Alias || s.plan.Concurrent || kern.RaceBuild {
+		return fresh // (race builds: the in-place edits below are map writes on the scheduler goroutine)
 	}
 	// The application keeps ONE options object, edits it in place (endpoint
 	// slices rewritten element by element when the length fits) and passes it
@@ -735,7 +735,13 @@ func (s *sim) scribbleOpts() {
 			me.Endpoints[i] = fmt.Sprintf("scribbled-%d:1", i)
 		}
 		me.RecoveryTimeout, me.SwitchingDelay = 12345*time.Hour, 54321*time.Hour
-		delete(mo.MultiEndpoints, name)
+		if !kern.RaceBuild {
+			// (the runtime's map functions report to the race detector even from here,
+			// and nothing orders the scheduler goroutine after the task that read the
+			// map: a harness-made report, met once a slow dial had moved the clock
+			// between the two)
+			delete(mo.MultiEndpoints, name)
+		}
 	}
 	mo.Default = "scribbled"
 	s.res.Count("fault:caller_overwrites_its_options_after_the_call", 1)
